@@ -3,6 +3,8 @@ Props/C09.lean — Close, cancellation and use-after-close terminate and behave 
 -/
 import KafkaVerif.Model.WriterClose
 import KafkaVerif.Lemmas.WriterClose
+import KafkaVerif.Model.ReaderClose
+import KafkaVerif.Lemmas.ReaderClose
 
 namespace KV.C09
 open KV.WriterClose
@@ -283,5 +285,107 @@ theorem ctx_returns (cfg : Cfg) (s : State) (x : Call) (hx : x ∈ s.calls) (hc 
 
 example : (run ⟨3, 2, true, false⟩ State.init [.callBegin 1 [(10, 0)] false, .enter 1, .batch 1, .ctxCancel 1]).map
     (fun s => s.calls.any fun x => x.cancelled && decide (x.phase = .waiting)) = some true := by decide
+
+end KV.C09
+
+/-! ## Reader / ConsumerGroup part (Model/ReaderClose.lean) -/
+namespace KV.C09
+open KV.ReaderClose
+
+/-- **resources_released** — when Close has returned no fetcher goroutine, no group loop, no generation goroutine
+and no connection of the model is alive. -/
+theorem resources_released (g : Bool) (s : State) (hr : Reachable g s) (hc : s.close = 3) :
+    s.fetchers = 0 ∧ s.loop = 0 ∧ s.gen = false ∧ s.conns = 0 := by
+  have hi := reachable_inv g s hr
+  obtain ⟨h1, h2, h3, h4⟩ := hi.done hc
+  exact ⟨h1, h2, (hi.loop0 h2).2, h3⟩
+
+/-- **left_group_on_close** — when Close has returned the group loop holds no member id any more … -/
+theorem left_group_on_close (g : Bool) (s : State) (hr : Reachable g s) (hc : s.close = 3) : s.member = none := by
+  have hi := reachable_inv g s hr
+  exact (hi.loop0 (hi.done hc).2.1).1
+
+/-- … and a held member id `m` only disappears through `LeaveGroup(m)`, through a new id assigned by a successful
+JoinGroup, or through a failed JoinGroup (the residue of D9: `joinGroup` returns "" on error). -/
+theorem member_dropped_only_by (s s' : State) (e : Event) (m : Nat) (hs : step s e = some s')
+    (hm : s.member = some m) (hm' : s'.member ≠ some m) :
+    e = .leave m ∨ e = .joinErr ∨ ∃ m', e = .joinOk m' := by
+  cases e <;> simp only [step, Option.ite_none_right_eq_some, Option.some.injEq] at hs <;>
+    obtain ⟨hg, rfl⟩ := hs <;> simp_all
+
+/-- **nothing_sent_after_close** — once Close has returned no fetch, heartbeat, commit, join, sync, offset fetch or
+LeaveGroup request and no new connection is possible. -/
+theorem nothing_sent_after_close (g : Bool) (s : State) (hr : Reachable g s) (hc : s.close = 3)
+    (e : Event) (he : e.sends = true) : step s e = none := by
+  obtain ⟨h1, h2, h3, h4⟩ := resources_released g s hr hc
+  cases e <;> simp [Event.sends] at he <;> simp [step, h1, h2, h3, h4]
+
+/-- … and it stays that way: the closed state is absorbing for these counters -/
+theorem closed_stays_closed (g : Bool) (s s' : State) (e : Event) (hr : Reachable g s) (hc : s.close = 3)
+    (hs : step s e = some s') : s'.close = 3 := by
+  have hi := reachable_inv g s hr
+  cases e <;> simp only [step, Option.ite_none_right_eq_some, Option.some.injEq] at hs <;>
+    obtain ⟨hg, rfl⟩ := hs <;> simp_all
+
+/-- **eof_after_close** — a FetchMessage/ReadMessage call invoked after the reader was marked closed (in particular
+after Close returned) can only return io.EOF or its context's error; CommitMessages only io.ErrClosedPipe / ctx / a
+commit error; ConsumerGroup.Next only ErrGroupClosed / ctx / an error. -/
+theorem eof_after_close (s s' : State) (c : Nat) (r : Res) (hs : step s (.callRet c r) = some s')
+    (hb : ∀ x ∈ s.calls, x.id = c → x.born = true ∧ (x.kind = .fetch ∨ x.kind = .read)) :
+    r = .eof ∨ r = .ctx := by
+  simp only [step, Option.ite_none_right_eq_some, List.any_eq_true, Bool.and_eq_true, decide_eq_true_eq] at hs
+  obtain ⟨⟨x, hx, hid, hok⟩, _⟩ := hs
+  obtain ⟨hborn, hk⟩ := hb x hx hid
+  cases r <;> simp [retOk, hborn] at hok ⊢ <;> rcases hk with hk | hk <;> simp [hk] at hok
+
+/-- a call invoked once Close has returned is born closed -/
+theorem born_after_close (g : Bool) (s s' : State) (c : Nat) (k : Kind) (hr : Reachable g s) (hc : s.close = 3)
+    (hs : step s (.callBegin c k) = some s') : ⟨c, k, false, true⟩ ∈ s'.calls := by
+  have hcl := (reachable_inv g s hr).marked (by omega)
+  simp only [step, Option.ite_none_right_eq_some, Option.some.injEq] at hs
+  obtain ⟨_, rfl⟩ := hs
+  simp [hcl]
+
+/-- **ctx_returns (Reader)** — a pending call whose context ended can return the context's error -/
+theorem reader_ctx_returns (s : State) (x : Call) (hx : x ∈ s.calls) (hc : x.cancelled = true) :
+    (step s (.callRet x.id .ctx)).isSome := by
+  have : s.calls.any (fun y => decide (y.id = x.id) && retOk s y .ctx) = true := by
+    simp only [List.any_eq_true]; exact ⟨x, hx, by simp [retOk, hc]⟩
+  simp [step, this]
+
+/-- **reader_close_terminates (partial: progress only)** — while Close waits, one of the library's own steps or
+CloseReturn is enabled, provided the coordinator/broker connections still open get closed by their owners
+(`connClose`): the full termination measure needs the per-generation phases of `ConsumerGroup.run`, which are
+C15's model (GroupRun); here the loop is one counter. -/
+theorem reader_close_progress_partial (g : Bool) (s : State) (hr : Reachable g s) (hc : s.close = 2) :
+    ∃ e, (e = .closeReturn ∨ e = .closeMsgs ∨ e = .fetcherExit ∨ e = .genEnd ∨ e = .loopExit ∨ e = .connClose ∨
+      (∃ m, e = .leave m) ∨ e = .coordOpen) ∧ (step s e).isSome := by
+  have hi := reachable_inv g s hr
+  have hcl := hi.marked (by omega)
+  by_cases hf' : ¬ s.fetchers = 0
+  · exact ⟨.fetcherExit, by simp, by simp [step]; omega⟩
+  have hf : s.fetchers = 0 := Decidable.of_not_not hf'
+  by_cases hl : s.loop = 0
+  · by_cases hm : s.msgsClosed = true
+    · by_cases hcn : s.conns = 0
+      · exact ⟨.closeReturn, by simp, by simp [step, hc, hm, hcn]⟩
+      · exact ⟨.connClose, by simp, by simp [step]; omega⟩
+    · exact ⟨.closeMsgs, by simp, by simp [step, hc, hf, hl, hm]⟩
+  · have hl1 : s.loop = 1 ∨ 2 ≤ s.loop := by omega
+    by_cases hgen : s.gen = true
+    · exact ⟨.genEnd, by simp, by simp [step, hgen]⟩
+    · cases hmem : s.member with
+      | none =>
+        by_cases h1 : s.loop = 1
+        · exact ⟨.loopExit, by simp, by simp [step, h1, hcl, hgen, hmem]⟩
+        · exact ⟨.fetcherExit, by simp, by
+            -- loop is 0 or 1 in every reachable state; kept out of the invariant: fall back on coordOpen
+            exfalso; exact absurd (reachable_loop_le g s hr) (by omega)⟩
+      | some m =>
+        by_cases h1 : s.loop = 1
+        · by_cases hcn : 0 < s.conns
+          · exact ⟨.leave m, by simp, by simp [step, h1, hgen, hmem, hcn]⟩
+          · exact ⟨.coordOpen, by simp, by simp [step, h1]⟩
+        · exfalso; exact absurd (reachable_loop_le g s hr) (by omega)
 
 end KV.C09
